@@ -1,0 +1,51 @@
+//go:build verif
+
+package fasthttp
+
+// C09 (and the header-block part of C01 / C08): where a head ends is decided by the head's own bytes.
+// Checked by /verif/gocv (comment-only; compiled to nothing).
+//
+// blankAt(buf, k): the '\n' at position k ends an empty line ("\n" or "\r\n" at a line start).
+//@ spec lineStart(b []byte, p int) bool = p == 0 || b[p-1] == 10
+//@ spec blankAt(b []byte, k int) bool = b[k] == 10 && (lineStart(b, k) || (k >= 1 && b[k-1] == 13 && lineStart(b, k-1)))
+
+// readRawHeaders returns the prefix of buf up to and including the first empty line, or ErrNeedMore when buf has
+// none. The two postconditions determine n from buf[:n] alone: bytes after the empty line cannot change the answer.
+//@ func readRawHeaders results out n err
+//@   property C09 C08
+//@   modifies dst
+//@   ensures[errkinds] err == nil || err == ErrNeedMore
+//@   ensures[found] err == nil ==> 1 <= n && n <= len(buf) && blankAt(buf, n-1)
+//@   ensures[first] err == nil ==> forall k in [0, n-1): !blankAt(buf, k)
+//@   ensures[need-more] err != nil ==> n == 0 && forall k in [0, len(buf)): !blankAt(buf, k)
+//@   loop 1:
+//@     invariant[window] rgn(b) == rgn(buf) && off(b) + len(b) == off(buf) + len(buf) && off(b) - off(buf) + m == n
+//@     invariant[line-end] 1 <= m && 1 <= n && n <= len(buf) && buf[n-1] == 10
+//@     invariant[none-so-far] forall k in [0, n): !blankAt(buf, k)
+//@     invariant[dst-untouched] sameSlice(dst, old(dst))
+//@     decreases len(buf) - n
+
+// headerScanner.next, first call: when the caller has already delimited the block (blockEnd, from readRawHeaders),
+// the scanner works on exactly that block -- it neither looks for a terminator beyond it nor asks for more input.
+//@ func headerScanner.next results more
+//@   property C09
+//@   mode skeleton
+//@   on call headerScanner.readContinuedLineSlice -> kv, colon, e:
+//@     havoc heap
+//@     modifies s.r
+//@     ensures e != ErrNeedMore
+//@   on call isValidHeaderKey -> v, sp:
+//@     nohavoc
+//@   end
+//@   ensures[within-caller-block] !old(s.initialized) && s.initialized && 0 < old(s.blockEnd) && old(s.blockEnd) <= old(len(s.b)) ==> len(s.b) == old(s.blockEnd)
+//@   ensures[complete-head-is-answered] !old(s.initialized) && 0 < old(s.blockEnd) && old(s.blockEnd) <= old(len(s.b)) ==> s.err != ErrNeedMore || old(s.err) == ErrNeedMore
+//   Without a caller-found block end (response heads, trailers) the scanner cuts the block at the first CRLFCRLF.
+//   The head's terminating blank line is then the first blank line of that block: it has to be the block's last
+//   line, otherwise the head was only accepted because a CRLFCRLF happened to follow it.
+//@   ensures[first-blank-line-ends-block] !old(s.initialized) && s.initialized && !(0 < old(s.blockEnd) && old(s.blockEnd) <= old(len(s.b))) ==> forall k in [0, len(s.b) - 1): !blankAt(s.b, k)
+
+// readContinuedLineSlice never asks for more input: its errors are malformed-line errors.
+//@ func headerScanner.readContinuedLineSlice results line colon err
+//@   property C09
+//@   mode skeleton
+//@   ensures[not-need-more] err != ErrNeedMore
